@@ -7,6 +7,7 @@ import (
 	"fmt"
 	"runtime"
 	"strings"
+	"sync/atomic"
 	"testing"
 	"time"
 
@@ -43,16 +44,36 @@ type Case struct {
 	Stop    int
 	StopAt  int  // after this many successful Next calls
 	SlowDS  bool // the datasource yields between calls
+	IDMode  int  // 0 ids 1..n; 1 ids above 2^40; 2 negative ids (placeholders of unsaved elements); informational, the ids in Rels/Request are already mapped
+}
+
+// mapIDs rewrites every relation id (own ids, relation member refs, requests).
+func (c *Case) mapIDs(f func(int64) int64) {
+	for i := range c.Rels {
+		c.Rels[i].ID = f(c.Rels[i].ID)
+		for v := range c.Rels[i].Versions {
+			for m := range c.Rels[i].Versions[v].Members {
+				if c.Rels[i].Versions[v].Members[m].Type == "relation" {
+					c.Rels[i].Versions[v].Members[m].Ref = f(c.Rels[i].Versions[v].Members[m].Ref)
+				}
+			}
+		}
+	}
+	for i := range c.Request {
+		c.Request[i] = f(c.Request[i])
+	}
 }
 
 type ds struct {
-	hist map[osm.RelationID]osm.Relations
-	slow bool
+	hist  map[osm.RelationID]osm.Relations
+	slow  bool
+	calls int64 // lookups started
 }
 
 var errNF = fmt.Errorf("not found")
 
 func (d *ds) RelationHistory(ctx context.Context, id osm.RelationID) (osm.Relations, error) {
+	atomic.AddInt64(&d.calls, 1)
 	if d.slow {
 		runtime.Gosched()
 	}
@@ -81,6 +102,7 @@ type result struct {
 	got       []int64
 	nextAfter bool // Next returned true after the stop
 	err       error
+	atClose   int64 // data source lookups started when Close returned (-1: Close not called)
 }
 
 func check(c Case) error {
@@ -113,7 +135,7 @@ func check(c Case) error {
 	defer cancel()
 	done := make(chan result, 1)
 	go func() {
-		var res result
+		res := result{atClose: -1}
 		o := annotate.NewChildFirstOrdering(ctx, req, d)
 		stopped := false
 		for {
@@ -133,6 +155,7 @@ func check(c Case) error {
 			switch c.Stop {
 			case stopClose:
 				o.Close()
+				res.atClose = atomic.LoadInt64(&d.calls)
 			case stopCancel:
 				cancel()
 			}
@@ -164,6 +187,9 @@ func check(c Case) error {
 			return harness.Failf("C14/goroutine-leak", "producer goroutine still alive 5s after the iteration ended (stop=%d):\n%s", c.Stop, orderingGoroutines())
 		}
 		time.Sleep(time.Millisecond)
+	}
+	if now := atomic.LoadInt64(&d.calls); res.atClose >= 0 && now != res.atClose {
+		return harness.Failf("C14/lookup-after-close", "Close returned after %d data source lookups, yet %d more were started afterwards (stop after %d Next calls): the goroutine outlived Close", res.atClose, now-res.atClose, c.StopAt)
 	}
 	if len(res.got) > 10000 {
 		return harness.Failf("C14/non-termination", "more than 10000 ids emitted for %d relations", len(c.Rels))
@@ -298,13 +324,19 @@ func classify(c Case) (bool, []string) {
 	if c.Stop != stopNone {
 		cl = append(cl, "early-stop")
 	}
+	if c.Stop == stopClose && c.StopAt == 0 {
+		cl = append(cl, "close-before-first-next")
+	}
+	if c.IDMode != 0 {
+		cl = append(cl, "ids-outside-40-bits")
+	}
 	return edges >= 1 && len(has) >= 3, cl
 }
 
 func TestOrdering(t *testing.T) {
 	harness.Run(t, harness.Spec[Case]{
 		Name: "ordering", N: 10000,
-		Rule: "reference graphs over 1..12 relation ids: DAGs, cycles, self loops, ids without history, 1..3 versions per relation with different member sets, node/way members (also with ids equal to relation ids), request lists with duplicates, unknown ids, arbitrary order; stop plans: run to completion, Close after k Next calls, parent-context cancel after k; oracle = no duplicates, only ids with history, only requested-or-reachable ids, every requested id with history present after a complete run, on acyclic graphs every id after all ids reachable from it (checked on every prefix), Next false after the stop, iteration/Close return within 10 s, producer goroutine gone; non-trivial = >=3 relations with history and >=1 relation->relation edge",
+		Rule: "reference graphs over 1..12 relation ids: DAGs, cycles, self loops, ids without history, 1..3 versions per relation with different member sets, node/way members (also with ids equal to relation ids), request lists with duplicates, unknown ids, arbitrary order; half of the graphs use relation ids above 2^40 or negative ids; stop plans: run to completion, Close after k Next calls, parent-context cancel after k; oracle = no duplicates, only ids with history, only requested-or-reachable ids, every requested id with history present after a complete run, on acyclic graphs every id after all ids reachable from it (checked on every prefix), Next false after the stop, iteration/Close return within 20 s, producer goroutine gone, no data source lookup started after Close returned; non-trivial = >=3 relations with history and >=1 relation->relation edge",
 		Gen: func(t *rapid.T) Case {
 			n := rapid.IntRange(1, 12).Draw(t, "n")
 			dag := rapid.IntRange(0, 2).Draw(t, "dag") != 0
@@ -340,10 +372,75 @@ func TestOrdering(t *testing.T) {
 			c.Stop = rapid.SampledFrom([]int{stopNone, stopNone, stopClose, stopCancel}).Draw(t, "stop")
 			c.StopAt = rapid.IntRange(0, n).Draw(t, "stopAt")
 			c.SlowDS = rapid.Bool().Draw(t, "slow")
+			c.IDMode = rapid.SampledFrom([]int{0, 0, 1, 2}).Draw(t, "idMode")
+			switch c.IDMode {
+			case 1:
+				c.mapIDs(func(id int64) int64 { return id + 1<<40 })
+			case 2:
+				c.mapIDs(func(id int64) int64 { return -id })
+			}
 			return c
 		},
 		Check:    check,
 		Classify: classify,
 		Floors:   map[string]float64{"cyclic": 0.15, "early-stop": 0.3},
+	})
+}
+
+// TestDeepChains: nesting deeper than any pre-sized path buffer.
+func TestDeepChains(t *testing.T) {
+	harness.Run(t, harness.Spec[Case]{
+		Name: "deep-chains", N: 150,
+		Rule: "acyclic chains of 90..260 relations (relation i references i+1, plus up to 20 forward shortcut edges, 1-2 versions each, a few ids without history at the far end), requests = the head alone, the head plus a shuffled sample, or every id in shuffled order; same oracle as the ordering sub-check; non-trivial = depth >= 100",
+		Gen: func(t *rapid.T) Case {
+			n := rapid.SampledFrom([]int{90, 99, 100, 101, 102, 128, 150, 200, 260}).Draw(t, "depth")
+			c := Case{}
+			for id := 1; id <= n; id++ {
+				r := Rel{ID: int64(id)}
+				ver := Version{}
+				if id < n {
+					ver.Members = append(ver.Members, Member{Type: "relation", Ref: int64(id + 1)})
+				}
+				if rapid.IntRange(0, 9).Draw(t, "node?") == 0 {
+					ver.Members = append(ver.Members, Member{Type: "node", Ref: int64(id)})
+				}
+				r.Versions = append(r.Versions, ver)
+				if rapid.IntRange(0, 9).Draw(t, "v2?") == 0 {
+					r.Versions = append(r.Versions, Version{Members: append([]Member{{Type: "way", Ref: 7}}, ver.Members...)})
+				}
+				c.Rels = append(c.Rels, r)
+			}
+			for k := rapid.IntRange(0, 20).Draw(t, "shortcuts"); k > 0; k-- {
+				a := rapid.IntRange(1, n-1).Draw(t, "from")
+				b := rapid.IntRange(a+1, n).Draw(t, "to")
+				c.Rels[a-1].Versions[0].Members = append(c.Rels[a-1].Versions[0].Members, Member{Type: "relation", Ref: int64(b)})
+			}
+			if rapid.Bool().Draw(t, "tailMissing") {
+				c.Rels[n-1].Versions = nil
+			}
+			switch rapid.IntRange(0, 2).Draw(t, "reqMode") {
+			case 0:
+				c.Request = []int64{1}
+			case 1:
+				c.Request = []int64{1}
+				for k := rapid.IntRange(1, 10).Draw(t, "extra"); k > 0; k-- {
+					c.Request = append(c.Request, int64(rapid.IntRange(1, n).Draw(t, "req")))
+				}
+			default:
+				ids := make([]int64, n)
+				for i := range ids {
+					ids[i] = int64(i + 1)
+				}
+				c.Request = rapid.Permutation(ids).Draw(t, "reqAll")
+			}
+			return c
+		},
+		Check: check,
+		Classify: func(c Case) (bool, []string) {
+			return len(c.Rels) >= 100, []string{fmt.Sprintf("depth=%d", len(c.Rels))}
+		},
+		Describe: func(c Case) any {
+			return map[string]any{"depth": len(c.Rels), "request_len": len(c.Request), "first_requests": c.Request[:min(len(c.Request), 8)]}
+		},
 	})
 }
